@@ -82,9 +82,9 @@ func histLen(tier string) int {
 
 func noDedupLen(tier string) int {
 	if tier == engine.Thorough {
-		return 3
+		return envInt("C10_NODEDUP", 3)
 	}
-	return 2
+	return envInt("C10_NODEDUP", 2)
 }
 
 func stateCap(tier string) int {
@@ -123,6 +123,7 @@ type config struct {
 	variants string   // body variants offered to defmethod (see seqref.go)
 	calls    []string // argument kind tuples offered to call (and used as probes)
 	user     bool
+	maxLen   int // histories of this configuration stop at this length (0 = the tier's bound)
 }
 
 func (c *config) cpls(args string) [][]string {
@@ -579,7 +580,9 @@ func exec(spec string) (res engine.Result) {
 		outcome = append(outcome, obs.digest())
 	}
 	res.Outcome = canonKey(strings.Join(outcome, ";"))
-	res.Enabled = cfg.enabled(m)
+	if cfg.maxLen == 0 || len(hist)-1 < cfg.maxLen {
+		res.Enabled = cfg.enabled(m)
+	} // else: no successor is applicable (only cfg: operations are offered, and they are rejected)
 	return
 }
 
